@@ -80,4 +80,9 @@ func TestLive(t *testing.T) {
 	if run.Counter("cluster_out_of_order_stops") != 2 || run.Counter("cluster_gap_closed_last") != 1 || run.Counter("cluster_in_process_restarts") != 1 || run.Counter("cluster_sync_resyncs") != 1 {
 		t.Fatalf("cluster scenarios did not run to their stop/failure: %d %d %d %d", run.Counter("cluster_out_of_order_stops"), run.Counter("cluster_gap_closed_last"), run.Counter("cluster_in_process_restarts"), run.Counter("cluster_sync_resyncs"))
 	}
+	// the fault sweeps on one case
+	FaultSweeps(run, FaultOptions{NCases: 1, Workers: 1, Driver: d, Factory: NewStandalone})
+	if run.Counter("flush_faults_run") < 10 || run.Counter("recovery_faults_run") < 30 {
+		t.Fatalf("fault sweeps ran %d flush and %d recovery faults", run.Counter("flush_faults_run"), run.Counter("recovery_faults_run"))
+	}
 }
